@@ -137,6 +137,68 @@ def gen_call(rnd, name, opts=None):
     return box, params
 
 
+GAPS = [1, 1, 1, 2, 3, 255, 256, 257, 65535, 65536, 65537, 65538, 131073, 10 ** 6, 16777217, 2 ** 28]
+STRETCHABLE = ("alldifferent", "max_eq", "min_eq", "max_leq", "min_geq", "lexicographic_leq", "count_eq", "exactly_eq",
+               "element_iv", "element_liv", "element_lic", "relation", "affine_leq", "affine_geq", "affine_eq")
+
+
+def stretch_call(rnd, name, box, params):
+    """Maps the values of a small call through a strictly increasing function with gaps around 2^8, 2^16, 2^24, 2^28: the
+    same shapes on domains that are up to ~10^9 wide (positions, counts and coefficients are left alone; parameters that
+    are values go through the same map). Values stay inside +-2^30 and linear sums inside int32."""
+    n = len(box)
+    if name.startswith("affine"):
+        value_pos = list(range(n))
+    elif name == "count_eq":
+        value_pos = list(range(n - 1))
+    elif name == "element_iv":
+        value_pos = [1]
+    elif name == "element_liv":
+        value_pos = list(range(n - 2)) + [n - 1]
+    elif name == "element_lic":
+        value_pos = list(range(n - 1))
+    else:
+        value_pos = list(range(n))
+    if name in ("count_eq", "element_lic"):
+        value_par = [0]
+    elif name == "exactly_eq":
+        value_par = [0]
+    elif name in ("element_iv", "relation"):
+        value_par = list(range(len(params)))
+    else:
+        value_par = []
+    vals = [v for i in value_pos for v in box[i]] + [params[k] for k in value_par]
+    lo, hi = min(vals) - 1, max(vals) + 1
+    gaps = GAPS[:14] if name.startswith("affine") else GAPS
+    while True:
+        f = {}
+        cur = 0
+        for u in range(lo, hi + 1):
+            f[u] = cur
+            cur += rnd.choice(gaps)
+        if cur < 2 ** 30:
+            break
+    shift = rnd.choice([0, -f[hi] // 2, -f[hi], rnd.randint(-1000, 1000)])
+    if name.startswith("affine"):
+        # keep sum |a_i| max|x_i| + |c| below 2^31: scale the whole map down when needed
+        a = params[:-1]
+        while sum(abs(ai) for ai in a) * (f[hi] + abs(shift) + 1) >= 2 ** 29:
+            f = {u: v // 4 + (u - lo) for u, v in f.items()}
+            shift //= 4
+    g = {u: v + shift for u, v in f.items()}
+    nbox = [list(b) for b in box]
+    for i in value_pos:
+        nbox[i] = [g[box[i][0]], g[box[i][1]]]
+    npar = list(params)
+    for k in value_par:
+        npar[k] = g[params[k]]
+    if name.startswith("affine"):
+        a = params[:-1]
+        t = [rnd.randint(l, h) if rnd.random() < 0.5 else rnd.choice((l, h)) for l, h in nbox]
+        npar[-1] = sum(ai * ti for ai, ti in zip(a, t)) + rnd.choice([0, 0, 0, 1, -1, 2, -3, 70000, -70000])
+    return nbox, npar
+
+
 # -------------------------------------------------------------------------------- exhaustive small scope per type
 def small_universe_boxes(n, lo, hi):
     ivs = [[a, b] for a in range(lo, hi + 1) for b in range(a, hi + 1)]
